@@ -11,6 +11,9 @@
 // blocked, no timed sleeper" is a deadlock verdict.  Operations on locations named with
 // vrt_name() are appended to a trace (one line per action) that the Lean model replays in
 // lock-step.  No source hooks in /repo are needed.
+// Environment knobs: VRT_MEM=view (stale reads allowed by the release/acquire view model),
+// VRT_TICK_NS=<n>, VRT_FUTEX_EINTR=<n> (one in n sleeping FUTEX_WAITs returns -1/EINTR without a
+// wake-up or a change of the word: the model's spurious wake-up; traced as `fwoke` without `fwake`).
 #pragma once
 #include <cstddef>
 #include <cstdint>
